@@ -33,6 +33,8 @@ def seeded():
         verdict = ('caught, concrete replay' if det.get('concrete_replay') else 'reported, no-failing-input-found' if det.get('detected') else 'MISSED') if det else 'not run'
         if m.get('obsolete'):
             verdict += ' (patch obsolete now)'
+        if m.get('neutral_now'):
+            verdict = 'caught while it was harmful; harmless since a later fix: (its demo passes with the patch applied) and the check is now rightly silent'
         out.append('| %s | %s | %s — needs: %s | %s | %s |' % (name, m['property'], short(m.get('clause', ''), 140), short(m.get('needs', ''), 200), verdict, short(notes.get(name, 'caught by the first run'), 300)))
     for name, n in sorted(notes.items()):
         if name not in names:
